@@ -751,6 +751,7 @@ def absurd_table_probe(ctx):
 
 
 def run(ctx):
+    C.config_matrix(ctx["report"], ctx["rundir"], "C16", ["sin(3.14159265)", "cos(1.57079633)", "sin(180.0000003 deg)", "tan(0.5)", "log10(1000.0000005)", "ln(2.718281828)", "log2(1024.0000005)", "log(125.00000006, 5)", "sqrt(2*10^16)", "ln(10000000!/9999998!)", "log(C(100000, 2), 3)", "sin(5e-10 rad)", "2^0.5", "floor(7/2)", "round(5/2)", "int(-7/2)", "sqrt(-1)", "log(8, 1)"])
     absurd_table_probe(ctx)
     import sys
     old = sys.get_int_max_str_digits()
